@@ -159,7 +159,10 @@ def per_env(rng, envs, pool, p_dict=0.5):
         if rng.random() < 0.5:
             d["default"] = rng.choice(pool)
         if d:
-            return d
+            # (the order in which the keys are written carries no meaning: 'default' may come first, environments in any order)
+            items = list(d.items())
+            rng.shuffle(items)
+            return dict(items)
     return rng.choice(pool)
 
 
@@ -240,7 +243,11 @@ def random_model(rng, max_species=3, max_reactions=2, max_cells=4, max_order=3, 
     for l in labels:
         s = {"label": l, "D": per_env(rng, envs, DS)}
         if rng.random() < chem_p:
-            s["chstt"] = {rng.choice(envs): True} if (len(envs) > 1 and rng.random() < 0.5) else True
+            if len(envs) > 1 and rng.random() < 0.5:
+                # per-environment flags: one environment flagged, or a full dictionary with explicit False entries next to a 'default'
+                s["chstt"] = {rng.choice(envs): True} if rng.random() < 0.5 else per_env(rng, envs, [True, False, False], p_dict=1.0)
+            else:
+                s["chstt"] = True
         species.append(s)
     reactions = []
     for _ in range(rng.randint(0, max_reactions)):
